@@ -64,7 +64,7 @@ type blkSpec struct {
 	Txs    uint32 `json:"txs"`
 }
 
-// op kinds: add readd get getnc getunknown length trust invalid invalidlast invalidtail idle reopen burst bigburst
+// op kinds: add readd get getnc getunknown length trust invalid invalidlast invalidtail twin abortedreopen idle reopen burst bigburst
 type op struct {
 	Op       string   `json:"op"`
 	B        *blkSpec `json:"b,omitempty"`
@@ -112,7 +112,8 @@ type summary struct {
 	invalidReopened, byteFlush               bool
 	idxRegress, idxRegressArchived           bool
 	unindexedTail, appendAfterTail           bool
-	cutRecords                               int
+	cutRecords, abortedLoads, twins          int
+	abortedMidway                            bool
 }
 
 type runner struct {
@@ -519,8 +520,95 @@ func (r *runner) do(o op) error {
 		r.mFlush()
 	case "reopen":
 		return r.reopenFault(o.Compress, o.Cache, o.Tail, o.Cut, uint64(r.step))
+	case "abortedreopen":
+		return r.abortedReopen(o.N, o.Trusted, o.Compress, o.Cache)
+	case "twin":
+		if o.B == nil {
+			return nil
+		}
+		return r.twin(o.B, o.I)
 	}
 	return nil
+}
+
+// abortedReopen: a start-up that is interrupted while the index is being loaded (Ctrl-C: client/init.go sets
+// chain.AbortNow, LoadBlockIndex leaves its loop, the client calls Close() and exits - or the process is killed
+// right away, noClose).  An aborted load has seen only the first k records; it must leave the store as it was:
+// the next, uninterrupted start lists and reads back everything.
+func (r *runner) abortedReopen(k int, noClose bool, compress bool, cache int) error {
+	r.db.Close()
+	r.mFlush()
+	r.db = nil
+	listed := 0
+	for _, b := range r.records {
+		if !b.invalid {
+			listed++
+		}
+	}
+	if k < 0 { // "all but one"
+		k = listed - 1
+		if k < 0 {
+			k = 0
+		}
+	}
+	k %= listed + 1
+	if listed > 1 && k == listed {
+		k = listed - 1 // an abort after the last record is no abort
+	}
+	func() {
+		defer func() { chain.AbortNow = false }() // package-level switch: never leave it set
+		db := chain.NewBlockDBExt(r.dir, &chain.BlockDBOpts{MaxCachedBlocks: r.cfg.Cache, MaxDataFileSize: r.cfg.MaxFile,
+			DataFilesKeep: r.cfg.Keep, DataFilesBackup: r.cfg.Backup, CompressOnDisk: r.cfg.Compress})
+		n := 0
+		if k == 0 {
+			chain.AbortNow = true
+		}
+		db.LoadBlockIndex(nil, func(ch *chain.Chain, hash, hdr []byte, height, blen, txs uint32) {
+			n++
+			if n >= k {
+				chain.AbortNow = true
+			}
+		})
+		if !noClose {
+			db.Close()
+		}
+		// noClose: the process is gone; its descriptors are closed without anything being written (here: by
+		// the finalizers of the os.File values)
+	}()
+	r.sum.abortedLoads++
+	if listed > 1 {
+		r.sum.abortedMidway = true
+	}
+	return r.reopenFault(compress, cache, 0, 0, 0)
+}
+
+// twin: a block arrives, is marked invalid while it is still in the write queue ("never write it"), and a block
+// with the same header - hence the same hash - but another body is handed to the store (the re-delivered /
+// malleated twin).  The store must return the bytes it was handed last.
+func (r *runner) twin(s *blkSpec, salt int) error {
+	before := len(r.blocks)
+	r.add(s, false)
+	b := r.blocks[before]
+	if b.written {
+		return nil // a flush threshold was crossed: not the queued situation
+	}
+	r.db.BlockInvalid(b.hash.Hash[:])
+	b.invalid = true
+	size2 := 81 + (len(b.raw)*7+salt)%(2*len(b.raw))
+	raw2 := makeBytes(kinds[salt%len(kinds)], size2, s.Seed^uint64(salt)*0x9e3779b97f4a7c15^1)
+	copy(raw2[:80], b.raw[:80])
+	b2 := &mblk{raw: raw2, hash: btc.NewSha2Hash(raw2[:80]), height: s.Height + 1, txs: s.Txs + 1}
+	r.db.BlockAdd(b2.height, &btc.Block{Raw: raw2, Hash: b2.hash, TxCount: int(b2.txs)})
+	r.blocks = append(r.blocks, b2)
+	r.byHash[b2.hash.Hash] = b2
+	r.queue = append(r.queue, b2)
+	r.datToWr += uint64(len(raw2))
+	r.sum.adds++
+	r.sum.twins++
+	if len(r.queue) >= chain.MAX_BLOCKS_TO_WRITE || r.datToWr >= chain.MAX_DATA_WRITE {
+		r.mFlush()
+	}
+	return r.checkGet(b2, false)
 }
 
 func (r *runner) reopen(compress bool, cache int) error {
@@ -545,9 +633,11 @@ func (r *runner) datName(idx uint32) string {
 // index record not) - then restart.  Blocks whose index record is cut away are not stored any more; everything
 // else must read back as before and appending must go on at the indexed extent, over the unindexed bytes.
 func (r *runner) reopenFault(compress bool, cache, tail, cut int, salt uint64) error {
-	r.db.Close()
-	r.mFlush()
-	r.db = nil
+	if r.db != nil { // nil: already closed by abortedReopen
+		r.db.Close()
+		r.mFlush()
+		r.db = nil
+	}
 	if cache < 1 {
 		cache = 1
 	}
@@ -724,7 +814,7 @@ func genSpec(t *rapid.T, thorough bool) *blkSpec {
 var opWeights = []struct {
 	op string
 	w  int
-}{{"add", 300}, {"readd", 50}, {"getnc", 50}, {"getunknown", 15}, {"length", 60}, {"burst", 2}, {"bigburst", 2}, {"trust", 60}, {"invalid", 40}, {"invalidlast", 30}, {"invalidtail", 20}, {"idle", 100}, {"reopen", 80}, {"get", 150}}
+}{{"add", 300}, {"readd", 50}, {"getnc", 50}, {"getunknown", 15}, {"length", 60}, {"burst", 2}, {"bigburst", 2}, {"trust", 60}, {"invalid", 40}, {"invalidlast", 30}, {"invalidtail", 20}, {"twin", 15}, {"idle", 100}, {"reopen", 80}, {"abortedreopen", 25}, {"get", 150}}
 
 func genOp(t *rapid.T, thorough bool) op {
 	tot := 0
@@ -750,6 +840,24 @@ func genOp(t *rapid.T, thorough bool) op {
 		o.Trusted = uni(t, "trusted", 4) == 0
 	case "invalidtail":
 		o.N = rapid.IntRange(2, 6).Draw(t, "n")
+	case "twin":
+		o.B = genSpec(t, false)
+		o.I = rapid.IntRange(0, 1<<20).Draw(t, "i")
+	case "abortedreopen":
+		// abort after 0, 1, some, all-1 records
+		switch uni(t, "abortat", 4) {
+		case 0:
+			o.N = 0
+		case 1:
+			o.N = 1
+		case 2:
+			o.N = rapid.IntRange(2, 2000).Draw(t, "n")
+		default:
+			o.N = -1
+		}
+		o.Trusted = uni(t, "noclose", 3) == 0 // here: no Close() after the aborted load (process killed)
+		o.Compress = rapid.Bool().Draw(t, "compress")
+		o.Cache = rapid.IntRange(1, 8).Draw(t, "cache")
 	case "bigburst":
 		o.N = rapid.IntRange(4, 6).Draw(t, "n")
 		o.I = rapid.IntRange(0, 1<<20).Draw(t, "i")
@@ -857,6 +965,12 @@ func TestBlockDBModel(t *testing.T) {
 		}
 		if sum.cutRecords > 0 {
 			r.Class("index_records_cut")
+		}
+		if sum.abortedMidway {
+			r.Class("aborted_index_load")
+		}
+		if sum.twins > 0 {
+			r.Class("twin_after_queued_invalid")
 		}
 		if sum.byteFlush {
 			r.Class("flush_by_16MiB")
